@@ -1,38 +1,75 @@
 --------------------------------- MODULE Build ---------------------------------
-(* `mos build` as the sequence of steps the command performs (mos/src/commands/build.rs),  *)
-(* each of which may fail.  C04 (output part): a failing build leaves every file of the     *)
-(* target directory exactly as it was; a build is reported failed iff a step failed.        *)
+(* `mos build` as the sequence of steps the command performs (mos/src/main.rs reads the    *)
+(* configuration, mos/src/commands/build.rs does the rest), each of which may fail, under   *)
+(* every configuration of the [build] table of mos.toml.                                    *)
+(* C04 (output part): a failing build leaves every file of the target directory exactly as   *)
+(* it was; a build is reported failed iff a step failed.  Beyond the property: which files a *)
+(* successful build writes under which configuration (Written), validated against the real  *)
+(* command by BuildTrace.tla.                                                                *)
 EXTENDS Integers, Sequences, FiniteSets, TLC
 
-CONSTANTS Outputs          \* output file names the project would write (binaries, listings, symbol files)
-Steps == <<"mkdir", "parse", "codegen", "checkformat", "merge", "writebanks", "writelisting", "writesymbols", "done">>
+(* A configuration: [entry, tdir, listing, symbols, fmt, ofn, banks, imports]                *)
+(*   entry   path of the entry file, relative to the project root                            *)
+(*   tdir    target-directory                                                                *)
+(*   listing, symbols (= ["vice"])  booleans                                                 *)
+(*   fmt     output-format: "none" (not set) | "prg" | "bin"                                 *)
+(*   ofn     output-filename, "" = not set                                                   *)
+(*   banks   number of banks the program defines (0 = only the default bank)                 *)
+(*   imports does the entry file import inc.asm (which emits bytes)                          *)
+CONSTANTS Cfgs
+Steps == <<"config", "mkdir", "parse", "codegen", "checkformat", "merge", "writebanks", "writelisting", "writesymbols", "done">>
+FailPoints == {"none", "config", "parse", "codegen", "merge", "io"}
 
-VARIABLES pc, files, status, failAt
-vars == <<pc, files, status, failAt>>
+(* strings are opaque to TLC: the stems of the entries in use are tabulated *)
+Stem(entry) == CASE entry = "main.asm" -> "main" [] entry = "prog.asm" -> "prog" [] entry = "src/start.asm" -> "start" [] OTHER -> "main"
+NBanks(c) == IF c.banks = 0 THEN 1 ELSE c.banks
+Format(c) == IF c.fmt # "none" THEN c.fmt ELSE IF NBanks(c) = 1 THEN "prg" ELSE "bin"
+BinName(c) == IF c.ofn # "" THEN c.ofn ELSE Stem(c.entry) \o "." \o Format(c)
+BankFiles(c) == {BinName(c)}
+ListingFiles(c) == IF c.listing THEN {Stem(c.entry) \o ".lst"} \cup (IF c.imports THEN {"inc.lst"} ELSE {}) ELSE {}
+SymbolFiles(c) == IF c.symbols THEN {Stem(c.entry) \o ".vs"} ELSE {}
+Written(c) == BankFiles(c) \cup ListingFiles(c) \cup SymbolFiles(c)
+(* every name some configuration writes, plus a file no build knows about *)
+Names == UNION {Written(c) : c \in Cfgs} \cup {"other.txt"}
+
+VARIABLES pc, files, status, failAt, cfg
+vars == <<pc, files, status, failAt, cfg>>
 (* files: name -> version; version 0 = as before the build, 1 = written by this build *)
 Init == /\ pc = 1 /\ status = "running"
-        /\ files = [f \in Outputs |-> 0]
-        /\ failAt \in {"none", "parse", "codegen", "checkformat", "merge", "io"}     \* where (if anywhere) this run fails
-Writes(step) == CASE step = "writebanks" -> {f \in Outputs : f \in {"main.prg", "bank2.bin"}}
-                  [] step = "writelisting" -> {f \in Outputs : f = "main.lst"}
-                  [] step = "writesymbols" -> {f \in Outputs : f = "main.vs"}
+        /\ cfg \in Cfgs
+        /\ files = [f \in Names |-> 0]
+        /\ failAt \in FailPoints                                   \* where (if anywhere) this run fails
+Writes(step) == CASE step = "writebanks" -> BankFiles(cfg)
+                  [] step = "writelisting" -> ListingFiles(cfg)
+                  [] step = "writesymbols" -> SymbolFiles(cfg)
                   [] OTHER -> {}
+(* `output-format = "prg"' with more than one bank is rejected by the format check, whatever else happens *)
+Fails(s) == s = failAt \/ (s = "checkformat" /\ cfg.fmt = "prg" /\ NBanks(cfg) # 1)
 Step == /\ status = "running" /\ pc <= Len(Steps)
         /\ LET s == Steps[pc] IN
-           IF s = failAt THEN status' = "failed" /\ UNCHANGED <<pc, files>>
+           IF Fails(s) THEN status' = "failed" /\ UNCHANGED <<pc, files>>
            ELSE IF s = "done" THEN status' = "ok" /\ UNCHANGED <<pc, files>>
-           ELSE /\ files' = [f \in Outputs |-> IF f \in Writes(s) THEN 1 ELSE files[f]]
+           ELSE /\ files' = [f \in Names |-> IF f \in Writes(s) THEN 1 ELSE files[f]]
                 /\ pc' = pc + 1 /\ UNCHANGED status
-        /\ UNCHANGED failAt
+        /\ UNCHANGED <<failAt, cfg>>
 (* an I/O failure can strike while the outputs are being written: the only way a failed build may leave new files *)
 IoFail == /\ status = "running" /\ failAt = "io" /\ Steps[pc] \in {"writebanks", "writelisting", "writesymbols"}
-          /\ status' = "failed" /\ UNCHANGED <<pc, files, failAt>>
+          /\ status' = "failed" /\ UNCHANGED <<pc, files, failAt, cfg>>
 Next == Step \/ IoFail
 Spec == Init /\ [][Next]_vars /\ WF_vars(Next)
 
-(* C04: a build that fails because of the *program* (parse, codegen, format check, bank merge) writes nothing *)
-NoOutputOnError == (status = "failed" /\ failAt # "io") => \A f \in Outputs : files[f] = 0
+(* C04: a build that fails because of the *program* or the configuration writes nothing *)
+NoOutputOnError == (status = "failed" /\ failAt # "io") => \A f \in Names : files[f] = 0
 (* every check happens before the first write *)
-ChecksBeforeWrites == (\E f \in Outputs : files[f] = 1) => pc > 5
+ChecksBeforeWrites == (\E f \in Names : files[f] = 1) => pc > 6
+(* a successful build has written exactly the files of its configuration *)
+SuccessWritesAll == status = "ok" => \A f \in Names : files[f] = 1 <=> f \in Written(cfg)
+(* the target directory exists from step 2 on, even when the build fails later (not an output file) *)
+TargetDirCreated == pc > 2
 Terminates == <>(status # "running")
+
+(* ---- what one run of the command is expected to leave, for the conformance judge ---- *)
+(* fault: "none" | "config" | "parse" | "codegen" | "importparse"                         *)
+Outcome(c, fault) == IF fault # "none" \/ (c.fmt = "prg" /\ NBanks(c) # 1) THEN "failed" ELSE "ok"
+DirExpected(c, fault) == fault # "config"
 ================================================================================
